@@ -187,6 +187,7 @@ type nodePoint struct {
 }
 
 type nodeRun struct {
+	idxStore string
 	rec    *trace.Recorder
 	n      *node
 	names  []string // name of entry seq
@@ -295,13 +296,49 @@ func (r *nodeRun) metaFlush() {
 	})
 }
 
-func (r *nodeRun) indexFlush() {
-	r.step("IndexFlush", trace.F{}, func() {
-		if err := r.n.shard.FlushIndex(); err != nil {
-			r.rec.Emit("Error", trace.F{"op": "FlushIndex", "err": err.Error()})
+// indexFlush: Shard.FlushIndex = prepare-flush of the four index families and their manifest commits one after
+// the other (observed through the kv seam): every commit is an event (which part of the index became durable)
+// and a kill point
+func (r *nodeRun) indexFlush(w *kvwrap.World) {
+	r.rec.Emit("IdxPrepare", trace.F{})
+	// family ids of the shard's index store
+	serID := -1
+	for _, st := range kv.GetStoreManager().GetStores() {
+		if strings.HasPrefix(st.Name(), filepath.Join(r.n.dir, "data")) && strings.HasSuffix(st.Name(), string(filepath.Separator)+"index") {
+			if f := st.GetFamily("series"); f != nil {
+				serID = int(f.ID())
+			}
+			r.idxStore = st.Name()
 		}
-		r.n.shard.WaitFlushIndexCompleted()
-	})
+	}
+	if w != nil {
+		w.AfterOpF = func(_ int, ev string, f trace.F) {
+			if ev != "ManifestAppend" || r.idxStore == "" {
+				return
+			}
+			rc, _ := f["rec"].(trace.F)
+			fam, _ := rc["fam"].(int)
+			if p, _ := f["store"].(string); p != r.idxStore {
+				return
+			}
+			part := "index"
+			if fam == serID {
+				part = "series"
+			}
+			r.rec.Emit("IdxCommit", trace.F{"part": part})
+			r.snapshot("inside-IndexFlush-after-" + part)
+		}
+	}
+	if err := r.n.shard.FlushIndex(); err != nil {
+		r.rec.Emit("Error", trace.F{"op": "FlushIndex", "err": err.Error()})
+	}
+	r.n.shard.WaitFlushIndexCompleted()
+	if w != nil {
+		w.AfterOpF = nil
+	}
+	r.rec.Emit("IdxDone", trace.F{})
+	r.rec.Emit("Proj", r.n.proj(r.names))
+	r.snapshot("after-IndexFlush")
 }
 
 // familyFlush: the manifest commit of the data segment store is observed through the kv seam
@@ -329,23 +366,53 @@ func (r *nodeRun) familyFlush(w *kvwrap.World) {
 	r.snapshot("after-FamilyFlush")
 }
 
+// reachableSeries: series ids of the metric that the shard index returns for the metric and for the tag key "host"
+func (r *nodeRun) reachableSeries(id metric.ID) map[uint32]bool {
+	out := map[uint32]bool{}
+	idx := r.n.shard.IndexDB()
+	byMetric, err := idx.GetSeriesIDsForMetric(id)
+	if err != nil || byMetric == nil {
+		return out
+	}
+	schema, err := r.n.db.MetaDB().GetSchema(id)
+	if err != nil || schema == nil {
+		return out
+	}
+	tm, ok := schema.TagKeys.Find("host")
+	if !ok {
+		return out
+	}
+	byTag, err := idx.GetSeriesIDsForTag(tm.ID)
+	if err != nil || byTag == nil {
+		return out
+	}
+	byMetric.And(byTag)
+	it := byMetric.Iterator()
+	for it.HasNext() {
+		out[it.Next()] = true
+	}
+	return out
+}
+
 // final reads back every entry: does its name resolve, and how often is its point in the data files
 func (r *nodeRun) final(w *kvwrap.World) {
 	for r.replicaStep() {
 	}
 	r.metaFlush()
-	r.indexFlush()
+	r.indexFlush(w)
 	r.familyFlush(w)
 	entries := [][]int64{}
 	for seq, name := range r.names {
 		resolved, count := int64(0), int64(0)
 		if id, err := r.n.db.MetaDB().GetMetricID("default-ns", name); err == nil {
 			resolved = 1
+			// the series a query finds: by metric AND by its tag key, through the shard's index
+			reach := r.reachableSeries(id)
 			bl, err := familyBlocks(r.n.family.Family(), []uint32{uint32(id)})
 			if err == nil {
 				for _, b := range bl[uint32(id)] {
 					for _, c := range b {
-						if c[2] == int64(seq) {
+						if c[2] == int64(seq) && reach[uint32(c[0])] {
 							count += c[3]
 						}
 					}
@@ -393,7 +460,7 @@ func nodeHistory(rec *trace.Recorder, dir string, rng *rand.Rand, h int, image b
 			afterWrite := rng.Intn(2) == 0
 			if run.replicaRoundWithFlush(afterWrite, func() {
 				run.metaFlush()
-				run.indexFlush()
+				run.indexFlush(w)
 				run.familyFlush(w)
 			}) {
 				script = append(script, fmt.Sprintf("replica-with-flush(afterWrite=%v)", afterWrite))
@@ -418,7 +485,7 @@ func nodeHistory(rec *trace.Recorder, dir string, rng *rand.Rand, h int, image b
 			if racing {
 				race()
 			}
-			run.indexFlush()
+			run.indexFlush(w)
 			if racing && rng.Intn(2) == 0 {
 				race()
 			}
